@@ -762,6 +762,14 @@ def wl_C11(tier, rng):
                 t = rng.randrange(n)
                 ops += [f"geodesic 0 {s} {t}", f"allgeodesics 0 {s} {t}" if n <= 14 else f"geodesic 0 {t} {s}"]
         yield ({"cls": cls, "kind": kind, "n": n, "len": len(ops)}, ops)
+    # findSourceVertex on arbitrary distance vectors: first zero, or invalid_argument
+    for _ in range(scale(tier, 40, 600)):
+        ops = []
+        for _ in range(8):
+            n = rng.randint(0, 6)
+            d = [rng.choice([0, 0, 1, 2, 3, 4294967295]) for _ in range(n)]
+            ops.append("findsource " + (" ".join(map(str, d)) if d else "-"))
+        yield ({"cls": "-", "kind": "-", "n": 0, "len": len(ops), "family": "findsource"}, ops)
     # multigraphs and weighted graphs seen through asLabeledGraph()
     for _ in range(scale(tier, 120, 2500)):
         cls = rng.choice(MULTI + WEIGHTED)
